@@ -847,6 +847,61 @@ func runC02(r *Run) {
 					r.bad("findParamLen:slash-in-non-greedy", r.fpos(fp), "no search for '/' inside the candidate capture of a non-greedy parameter")
 				}
 				for _, c := range slashIdx {
+					// the search in a boolean helper (`paramSpansSlash(s[:pos])` answering IndexByte(…) != -1): judged at the
+					// caller's test of the answer — with the slash found and the parameter not greedy only 0 is returned
+					if g := c.call.Fn; g != fp && len(c.notFound) == 0 && g.Signature.Results().Len() == 1 {
+						if bt, ok := g.Signature.Results().At(0).Type().Underlying().(*types.Basic); ok && bt.Kind() == types.Bool {
+							okHelper, seenCall := true, false
+							var own []callSite
+							withoutHelpers(func() { own = callsIn(fp, false) })
+							for _, hc := range own {
+								if hc.Common.StaticCallee() != g || hc.Value() == nil {
+									continue
+								}
+								for _, br := range ifsOnValue(fp, hc.Value()) {
+									sl, ok := br.truthSlot(true)
+									if !ok {
+										continue
+									}
+									seenCall = true
+									cut := map[edge]bool{}
+									for _, gb := range branchesInOne(fp) {
+										if valueIsField(gb.Info.Root, "routeSegment.IsGreedy") {
+											if s2, ok := gb.truthSlot(true); ok {
+												cut[edge{gb.If.Block(), s2}] = true
+											}
+										}
+									}
+									// the helper's answer and the greedy test may sit in one condition (`!greedy && spans(…)`): start at the edge
+									var hit ssa.Instruction
+									withoutHelpers(func() {
+										_, hit = reachEdge(edge{br.If.Block(), sl}, func(in ssa.Instruction) bool {
+											ret, ok := in.(*ssa.Return)
+											if !ok {
+												return false
+											}
+											n, isC := constInt(asConst(retOperand(ret, 0)))
+											return !(isC && n == 0)
+										}, cut, nil)
+									})
+									if hit != nil {
+										okHelper = false
+									}
+								}
+							}
+							// the helper answers true exactly when the byte is found
+							answersFound := false
+							for _, ri := range instrsWhereOne(g, isReturn) {
+								ci := decompose(retOperand(ri.(*ssa.Return), 0))
+								if k, ok := constInt(ci.Const); ok && stripValue(ci.Root) == c.call.Value() && !ci.Neg && ((ci.Op == token.NEQ && k == -1) || (ci.Op == token.GEQ && k == 0) || (ci.Op == token.GTR && k == -1)) {
+									answersFound = true
+								}
+							}
+							r.check(okHelper && seenCall && answersFound, "findParamLen:slash-in-non-greedy", r.pos(c.call.Instr),
+								"with the slash found by the helper and the parameter not greedy only 0 is returned", "a non-greedy capture containing '/' can yield a non-zero length")
+							continue
+						}
+					}
 					cut := map[edge]bool{}
 					for _, br := range branchesIn(c.call.Fn) {
 						if valueIsField(br.Info.Root, "routeSegment.IsGreedy") {
